@@ -61,6 +61,25 @@ theorem Res.mapM_get {α β} (f : α → Res β) : ∀ (l : List α) (out : List
     | raised => simp [hx] at h
     | unmodelled => simp [hx] at h
 
+/-- the cells computed for the measures carry the measures' output names, in order -/
+theorem mapM_cells_names (c : Measure → Res PValue) : ∀ (ms : List Measure) (cs : Row),
+    Res.mapM (fun m => (c m).map (fun v => (m.out, v))) ms = .ok cs → cs.map (·.1) = ms.map Measure.out
+  | [], cs, h => by simp [Res.mapM] at h; subst h; rfl
+  | m :: ms, cs, h => by
+    simp only [Res.mapM] at h
+    cases h1 : c m with
+    | ok v =>
+      cases h2 : Res.mapM (fun m => (c m).map (fun v => (m.out, v))) ms with
+      | ok cs' =>
+        rw [h1, h2] at h
+        simp only [Res.map_ok, Res.bind_ok, Res.ok.injEq] at h
+        subst h
+        simp [mapM_cells_names c ms cs' h2]
+      | raised => rw [h1, h2] at h; simp at h
+      | unmodelled => rw [h1, h2] at h; simp at h
+    | raised => rw [h1] at h; simp at h
+    | unmodelled => rw [h1] at h; simp at h
+
 /-! ## buckets with a per-key state -/
 
 section Upsert
@@ -205,7 +224,7 @@ theorem foldlM_aggAppend_old (row : Row) (vals : Measure → List PValue) : ∀ 
     have hmp : m.out ∉ pre.map (·.1) := hpre m.out (by simp [outNames])
     have hcur : pre ++ accCells (m :: todo) vals = pre ++ (m.out, .arr (vals m)) :: accCells todo vals := by simp [accCells]
     have hhas : rowHas m.out (pre ++ (m.out, .arr (vals m)) :: accCells todo vals) = true := by
-      simp [rowHas_append, rowHas]
+      simp [rowHas]
     have hstep : aggAppend row (pre ++ accCells (m :: todo) vals) m =
         .ok ((pre ++ [(m.out, .arr (vals m ++ nn (rowGet m.field row)))]) ++ accCells todo vals) := by
       rw [hcur]
@@ -263,7 +282,7 @@ theorem foldlM_aggFinish (F : HostFloat) (vals : Measure → List PValue) : ∀ 
     cases aggCell F m.fn (vals m) with
     | ok v =>
       simp only [Res.map_ok, Res.bind_ok, ih v]
-      cases Res.mapM (cellOf F vals) todo <;> simp [cellOf, Res.map, Res.bind]
+      cases Res.mapM (cellOf F vals) todo <;> simp [Res.map, Res.bind]
     | raised => simp
     | unmodelled => simp
 
